@@ -4,7 +4,7 @@
 import glob, json, os, re, shutil
 SRC = "/tmp/seed-out7"
 MISSED = {"C02-m2", "C05-m1", "C06-m2", "C08-m2", "C09-m1", "C09-m2", "C10-m1", "C10-m2", "C11-m1", "C11-m2", "C13-m1",
-          "C14-m1", "C15-m2", "C16-m1", "C16-m2"}
+          "C14-m1", "C15-m2", "C16-m1", "C16-m2", "C18-m1", "C18-m2", "C19-m1", "C19-m2"}
 DETECTED = {"%s-%s" % (p, m) for p in ["C%02d" % i for i in range(1, 20)] for m in ("m1", "m2")} - MISSED
 FIX = {
     "C02-m2": "JSON objects whose member names look like valid elements, for every list-typed field",
@@ -21,6 +21,10 @@ FIX = {
     "C14-m1": "cases also run in a child interpreter under python -O",
     "C15-m2": "UI and Signer reporting different versions, every printed value distinguishable by source (builder-attest)",
     "C16-m1": "spellings combined with defects, every load under a time budget (builder-certs)",
+    "C18-m1": "PINs with a non-alphanumeric byte at each position before / after the first letter (builder-admin)",
+    "C18-m2": "non-ASCII answers that Unicode transformations map to yes (long s, fullwidth), then no (builder-admin)",
+    "C19-m1": "an image given through a symbolic link: the signature belongs next to the path as given (builder-admin)",
+    "C19-m2": "image paths that look like other kinds of argument (64 hex characters, 0x-prefixed) (builder-admin)",
     "C16-m2": "element names that are not strings (numbers, null, booleans) in cyclic graphs, under a time budget (builder-certs)",
 }
 NEEDS_RE = re.compile(r"(?is)(?:what )?(?:is |it )?(?:need(?:ed|s)?|trigger|manifest)[^\n]*\n(.*?)(?:\n#|\n\*\*[A-Z]|\Z)")
